@@ -34,6 +34,14 @@ package tls
 //@ pure
 //@ loop 1 invariant info != nil ==> info.count <= 4294967295
 //@ fresh result0
+//@ site strconv.ParseUint#1 as pmaxval
+//@ site strconv.ParseUint#3 as pmaxlen
+//@ site strconv.ParseUint#4 as pminlen
+//@ site strconv.ParseUint#5 as pval
+//@ at pmaxval assert [values-of-up-to-eight-octets-are-read-as-64-bit-decimals] pmaxval.base == 10 && pmaxval.bitSize == 64
+//@ at pmaxlen assert [lengths-of-up-to-eight-octets-are-read-as-64-bit-decimals] pmaxlen.base == 10 && pmaxlen.bitSize == 64
+//@ at pminlen assert [lengths-of-up-to-eight-octets-are-read-as-64-bit-decimals] pminlen.base == 10 && pminlen.bitSize == 64
+//@ at pval assert [selector-values-span-the-whole-range-of-an-eight-octet-enum] pval.base == 10 && pval.bitSize == 64
 //@ ensures [named-fields-always-get-info] result1 == nil && name != "" ==> result0 != nil
 //@ ensures [sizes-are-at-most-eight-octets] result1 == nil && result0 != nil ==> result0.count <= 8
 //@ ensures [unselected-fields-have-valid-size-and-bounds] result1 == nil && result0 != nil && result0.selector == "" && result0.countSet ==> 1 <= result0.count && result0.count <= 8 && result0.minlen <= result0.maxlen
